@@ -1,8 +1,28 @@
 pub mod bq;
+pub mod utf8;
+pub mod meta;
+pub mod ser;
+pub mod xmlser;
+pub mod xmltb;
+pub mod tendril;
+pub mod rcdom;
+pub mod tok;
+pub mod tb;
+pub mod xmltok;
 
 pub fn dispatch(engine: &str, fields: &[&str]) -> String {
     match engine {
         "bq" => bq::run(fields),
+        "utf8" => utf8::run(fields),
+        "meta" => meta::run(fields),
+        "ser" => ser::run(fields),
+        "xmlser" => xmlser::run(fields),
+        "xmltb" => xmltb::run(fields),
+        "tendril" => tendril::run(fields),
+        "rcdom" => rcdom::run(fields),
+        "tok" => tok::run(fields),
+        "tb" => tb::run(fields),
+        "xmltok" => xmltok::run(fields),
         _ => "bad-engine".to_string(),
     }
 }
